@@ -57,6 +57,7 @@ func (s *wstate) with(u PState) *wstate {
 
 type Walk struct {
 	Info      *types.Info
+	root      ast.Node // the body being walked (success flags of substituted helpers are looked up in it)
 	MaxStates int
 
 	// Event is called for every call expression (post-order: arguments first), channel
@@ -117,6 +118,7 @@ func (w *Walk) Run(body *ast.BlockStmt, init PState) {
 	if w.MaxStates == 0 {
 		w.MaxStates = 512
 	}
+	w.root = body
 	outs := w.block(body.List, []*wstate{{U: init}})
 	for _, s := range outs {
 		kind := s.flow
@@ -341,6 +343,31 @@ func (w *Walk) refine(s *wstate, cond ast.Expr, val bool) []*wstate {
 	}
 	if w.Branch == nil {
 		return []*wstate{s}
+	}
+	// the success flag of a substituted helper (inline.go) is true: none of the early exits that set it to false was taken
+	if id, isId := cond.(*ast.Ident); isId && val && w.Info != nil && w.root != nil {
+		if gs := inlinedFlagGuards(w.Info, w.root, w.Info.Uses[id]); len(gs) > 0 {
+			cur := []*wstate{s}
+			for _, g := range gs {
+				var nx []*wstate
+				for _, t := range cur {
+					nx = append(nx, w.refine(t, g, false)...)
+				}
+				cur = nx
+			}
+			var out []*wstate
+			for _, t := range cur {
+				u, ok := w.Branch(w, t.U, cond, val)
+				switch {
+				case !ok:
+				case u == nil:
+					out = append(out, t)
+				default:
+					out = append(out, t.with(u))
+				}
+			}
+			return dedup(out)
+		}
 	}
 	u, ok := w.Branch(w, s.U, cond, val)
 	if !ok {
